@@ -614,9 +614,8 @@ func (w *World) Eval(e Expr, store string, row *Row) bool {
 
 func (w *World) count(store string, row *Row, sym string, sub *SubQ) int {
 	if sub == nil {
-		if strings.Contains(sym, ".") {
-			unjudged("count / isEmpty over a dotted path (set vs multiset is not specified)")
-		}
+		// over a dotted path the elements are those of the stacked cursor: one per related entity and value (a
+		// multiset in path order - the reading C14 checks the cursor itself against)
 		vals, isSet, _, ok := w.resolve(store, row, sym)
 		if !ok || !isSet {
 			unjudged("count over a non-set")
